@@ -26,6 +26,7 @@ type progFile struct {
 	locs     []sampleLoc
 	co64     bool
 	mdatLast bool
+	corrupt  bool
 }
 
 func encBox(b mp4.Box) []byte {
@@ -157,6 +158,7 @@ func genProg(rng *hx.Rng, o progOpts) progFile {
 			si++
 		}
 	}
+	pf.corrupt = o.corrupt
 	if o.corrupt {
 		c := rng.Intn(nChunks)
 		switch rng.Intn(4) {
@@ -301,7 +303,7 @@ func emitSamples(rng *hx.Rng, pf progFile, zeof bool, maxIntervals int) {
 			orc := genOracle(rng)
 			rm, _ := copySamples(fm, pf.file, uint32(v.a), uint32(v.b), wl, orc, zeof)
 			rl, _ := copySamples(fl, pf.file, uint32(v.a), uint32(v.b), wl, orc, zeof)
-			fmt.Fprintf(out, "S\t%s\t%d\t%d\t%d\t%s\t%s\t%s\t%s\n", nextID(), v.a, v.b, wl, hx.Csv(orc), chunksStr(cs), rm, rl)
+			fmt.Fprintf(out, "S\t%s\t%d\t%d\t%d\t%d\t%s\t%s\t%s\t%s\n", nextID(), b2i(!pf.corrupt), v.a, v.b, wl, hx.Csv(orc), chunksStr(cs), rm, rl)
 		}
 	}
 }
